@@ -270,6 +270,8 @@ fn run_all(e: &mut Enumerate, thorough: bool) {
     e.visit::<f64, HyperDual<Dual64, f64>>(Dims::NONE);
     e.visit::<f64, DualVec<Dual64, f64, Const<2>>>(Dims::n(2));
     e.visit::<f64, Dual<DualSVec64<2>, f64>>(Dims::n(2));
+    e.visit::<f64, Dual2Vec<Dual64, f64, Const<2>>>(Dims::n(2));
+    e.visit::<f64, HyperDualVec<Dual64, f64, Const<1>, Const<2>>>(Dims::mn(1, 2));
     if thorough {
         e.visit::<f64, Dual3<Dual64, f64>>(Dims::NONE);
         e.visit::<f64, HyperHyperDual<Dual64, f64>>(Dims::NONE);
